@@ -375,6 +375,139 @@ func (d *Doc) Number() {
 	for _, n := range d.Flow {
 		scan(n)
 	}
+	// structural triggers of the known deviations (recomputed from the document, never read
+	// from a corpus file)
+	set := func(k string, v bool) {
+		if d.Tags == nil {
+			d.Tags = map[string]bool{}
+		}
+		delete(d.Tags, k)
+		if v {
+			d.Tags[k] = true
+		}
+	}
+	// the used page name goes from a named page back to the unnamed one between two
+	// consecutive content units
+	var names []int
+	var pn func(n *Node, inh int)
+	pn = func(n *Node, inh int) {
+		switch n.Kind {
+		case KBlk:
+			if n.Page != 0 {
+				inh = n.Page
+			}
+			for _, k := range n.Kids {
+				pn(k, inh)
+			}
+		case KPara:
+			for i := 0; i < n.N; i++ {
+				names = append(names, inh)
+			}
+		case KMono:
+			names = append(names, inh)
+		}
+	}
+	for _, n := range d.Flow {
+		pn(n, 0)
+	}
+	back := false
+	for i := 1; i < len(names); i++ {
+		if names[i-1] != 0 && names[i] == 0 {
+			back = true
+		}
+	}
+	set("page-name-back-to-unnamed", back)
+	nthZero := false
+	for _, r := range d.Rules {
+		for _, s := range r.Sels {
+			if s.Nth && s.A == 0 && s.B == 0 {
+				nthZero = true
+			}
+		}
+	}
+	set("nth-zero-selector", nthZero)
+	// break-before on the first child / break-after on the last child of a block with
+	// several children: the value acts at the boundary of the parent (propagation)
+	edge := false
+	var ed func(n *Node)
+	ed = func(n *Node) {
+		if n.Kind != KBlk {
+			return
+		}
+		if len(n.Kids) >= 2 {
+			if f := n.Kids[0]; f.Kind == KBlk && f.Bb != 0 {
+				edge = true
+			}
+			if l := n.Kids[len(n.Kids)-1]; l.Kind == KBlk && l.Ba != 0 {
+				edge = true
+			}
+		}
+		for _, k := range n.Kids {
+			ed(k)
+		}
+	}
+	for _, n := range d.Flow {
+		ed(n)
+	}
+	set("edge-break", edge)
+}
+
+// UnitBlocks returns, for every content unit, the chain of blocks that contain it
+// (outermost first).
+func (d *Doc) UnitBlocks() [][]*Node {
+	out := make([][]*Node, d.NUnits)
+	var walk func(n *Node, chain []*Node)
+	walk = func(n *Node, chain []*Node) {
+		switch n.Kind {
+		case KBlk:
+			c := append(append([]*Node{}, chain...), n)
+			for _, k := range n.Kids {
+				walk(k, c)
+			}
+		case KPara:
+			for i := 0; i < n.N; i++ {
+				out[n.FirstUnit+i] = chain
+			}
+		case KMono:
+			out[n.FirstUnit] = chain
+		}
+	}
+	for _, n := range d.Flow {
+		walk(n, nil)
+	}
+	return out
+}
+
+// PageTopPaddingOverflow: on some page a block with bottom padding / border that contains
+// the first unit of the page (it starts or resumes at the top of the page) also ends with the
+// last unit of the page: the structural trigger of the known deviation "bottom padding of a
+// block at the top of a page is not taken into account" (inFlowLayout canBreak = false).
+func (d *Doc) PageTopPaddingOverflow(pages []PageObs) bool {
+	ub := d.UnitBlocks()
+	last := func(n *Node) int { // last unit of a block
+		for n.Kind == KBlk {
+			n = n.Kids[len(n.Kids)-1]
+		}
+		if n.Kind == KPara {
+			return n.FirstUnit + n.N - 1
+		}
+		return n.FirstUnit
+	}
+	for _, p := range pages {
+		if len(p.Units) == 0 {
+			continue
+		}
+		s, e := p.Units[0].ID, p.Units[len(p.Units)-1].ID
+		if s < 0 || e < 0 || s >= len(ub) || e >= len(ub) {
+			continue
+		}
+		for _, b := range ub[s] {
+			if b.Pb+b.Bbw > 0 && last(b) == e {
+				return true
+			}
+		}
+	}
+	return false
 }
 
 func (d *Doc) TagList() []string {
